@@ -16,6 +16,13 @@
 // bytes, a map filled before the store) belong to that field's violation.  A race inside another package's memory
 // that no tracked field explains is `races:external:<f1>+<f2>`; a race at a library location the table does not
 // cover is `races:?.?:…` AND a disagreement with the model (the extractor is incomplete).
+//
+// Package-level variables (state shared by every client and server of the process) have a table of their own
+// (lean/Mcp/Gen/Globals.lean + Globals.sites.json, extract/races_globals.go): a report whose two stacks lead — at
+// their first library frame, or the library frames below it — to access sites of the same variable is
+// `races:global:<pkg>.<var>` (ONE per variable, whatever pair of functions and whatever memory behind the variable the
+// run observed), and must be predicted by the model of that table (`races.gpredict`); the verdict per variable is the
+// model's (`races.global`).
 package main
 
 import (
@@ -42,7 +49,7 @@ func main() {
 		return
 	}
 	hk.Main(&hk.Component{Name: "races",
-		Rule: "scenarios = {streamable server with clients coming and going, GET streams resuming, one streamable client used from many goroutines then terminated/closed in use, first use from several goroutines, legacy SSE server+clients, stdio server on pipes, stdio client with a real child process} x GOMAXPROCS x seed, each in a -race sub-process; a case is a distinct race report (field, function pair) or a table field; non-trivial = the field is undisciplined / the report names a tracked field",
+		Rule: "scenarios = {streamable server with clients coming and going, GET streams resuming, one streamable client used from many goroutines then terminated/closed in use, first use from several goroutines, legacy SSE server+clients, stdio server on pipes, stdio client with a real child process, streamable and SSE clients with a retry policy whose calls fail transiently and back off together (one client from several goroutines, several clients), a server's registries listed in memory while the oldest tool of a sliding window is unregistered} x GOMAXPROCS x seed, each in a -race sub-process; a case is a distinct race report (field or package-level variable, function pair), a table field or a table variable; non-trivial = the field / variable is undisciplined or holds something mutable / the report names a tracked field or variable",
 		Run:  run})
 }
 
@@ -118,6 +125,33 @@ type table struct {
 	Fields []tableField `json:"fields"`
 	byLine map[string][]site
 	undisc map[string]bool
+	// package-level variables
+	Globals  []tableGlobal
+	gByLine  map[string][]gsite
+	gUndisc  map[string]bool
+	globalOf map[string]*tableGlobal
+}
+
+type gsite struct {
+	Fn     string `json:"fn"`
+	Kind   string `json:"kind"`
+	Sync   string `json:"sync"`
+	Held   []held `json:"held"`
+	Init   bool   `json:"init"`
+	Config bool   `json:"config"`
+	File   string `json:"file"`
+	Line   int    `json:"line"`
+	key    string
+}
+
+type tableGlobal struct {
+	Pkg         string  `json:"pkg"`
+	Name        string  `json:"name"`
+	Type        string  `json:"type"`
+	VKind       string  `json:"vkind"`
+	Disciplined bool    `json:"disciplined"`
+	Why         string  `json:"why"`
+	Sites       []gsite `json:"sites"`
 }
 
 func loadTable(c *hk.Ctx, root, repo string) (*table, error) {
@@ -125,10 +159,12 @@ func loadTable(c *hk.Ctx, root, repo string) (*table, error) {
 	gen := filepath.Join(c.Dir, "races_gen")
 	os.MkdirAll(gen, 0o755)
 	path := filepath.Join(root, "lean", "Mcp", "Gen", "FieldLocks.sites.json")
+	gpath := filepath.Join(root, "lean", "Mcp", "Gen", "Globals.sites.json")
 	if exe := filepath.Join(root, "extract", "bin", "extract"); fileExists(exe) {
 		cmd := exec.Command(exe, "-repo", repo, "-out", gen)
-		if out, err := cmd.CombinedOutput(); err == nil && fileExists(filepath.Join(gen, "FieldLocks.sites.json")) {
+		if out, err := cmd.CombinedOutput(); err == nil && fileExists(filepath.Join(gen, "FieldLocks.sites.json")) && fileExists(filepath.Join(gen, "Globals.sites.json")) {
 			path = filepath.Join(gen, "FieldLocks.sites.json")
+			gpath = filepath.Join(gen, "Globals.sites.json")
 		} else {
 			c.SetExtra("extract_rerun", fmt.Sprintf("failed (%v): %s", err, tail(string(out), 300)))
 		}
@@ -148,6 +184,30 @@ func loadTable(c *hk.Ctx, root, repo string) (*table, error) {
 		for _, s := range f.Sites {
 			k := s.File + ":" + strconv.Itoa(s.Line)
 			t.byLine[k] = append(t.byLine[k], s)
+		}
+	}
+	gb, err := os.ReadFile(gpath)
+	if err != nil {
+		return nil, err
+	}
+	var gt struct {
+		Globals []tableGlobal `json:"globals"`
+	}
+	if err := json.Unmarshal(gb, &gt); err != nil {
+		return nil, err
+	}
+	t.Globals, t.gByLine, t.gUndisc, t.globalOf = gt.Globals, map[string][]gsite{}, map[string]bool{}, map[string]*tableGlobal{}
+	for i := range t.Globals {
+		g := &t.Globals[i]
+		key := g.Pkg + "." + g.Name
+		t.globalOf[key] = g
+		if !g.Disciplined {
+			t.gUndisc[key] = true
+		}
+		for _, s := range g.Sites {
+			s.key = key
+			k := s.File + ":" + strconv.Itoa(s.Line)
+			t.gByLine[k] = append(t.gByLine[k], s)
 		}
 	}
 	return t, nil
@@ -333,6 +393,7 @@ func repoFrame(a access, repo string) (rel string, line int, top bool, ok bool) 
 
 type finding struct {
 	Type, Field, F1, F2 string
+	Global              string // "<pkg>.<var>": the report is on (the object behind) a package-level variable
 	Pointee             bool
 	Mapped              bool
 	External            bool // the racing memory belongs to another package and is not reached through a tracked field
@@ -344,6 +405,9 @@ type finding struct {
 }
 
 func (f *finding) fingerprint() string {
+	if f.Global != "" {
+		return "races:global:" + f.Global
+	}
 	if f.External {
 		return fmt.Sprintf("races:external:%s+%s", f.F1, f.F2)
 	}
@@ -362,6 +426,89 @@ func (f *finding) fingerprint() string {
 // reachable through the field — e.g. a map filled before it is stored without synchronisation).  The most direct
 // combination with a common field wins; anything but (1)×(1) with a write site is a race on memory BEHIND the field.
 func classify(r report, t *table, repo, harnessDir string) finding {
+	f := classifyField(r, t, repo, harnessDir)
+	// a field explanation stands (a line may touch a field and a package-level variable) unless the variable is one the
+	// table calls undisciplined, or both stacks hit the variable directly while the field explanation is an indirect one
+	// through a field that is itself disciplined (the report is a new finding under either name)
+	if g, direct, ok := classifyGlobal(r, t, repo); ok &&
+		(t.gUndisc[g.Global] || !f.Mapped || (direct && f.Pointee && !t.undisc[f.Type+"."+f.Field])) {
+		g.Where, g.Text = f.Where, f.Text
+		return g
+	}
+	return f
+}
+
+// classifyGlobal: both stacks lead to access sites of the same package-level variable — on the line of their first
+// library frame (the library touches the variable, or calls into the package whose object the variable holds), else on
+// the lines of the next library frames.  With one stack lost, the other one's first library frame decides, for
+// variables the table calls undisciplined only.
+func classifyGlobal(r report, t *table, repo string) (finding, bool, bool) {
+	var sets [2][2][]gsite
+	var lost [2]bool
+	for k := 0; k < 2; k++ {
+		lost[k] = len(r.acc[k].frames) == 0
+		n := 0
+		for _, f := range r.acc[k].frames {
+			if !strings.HasPrefix(f.file, repo+"/") {
+				continue
+			}
+			ss := t.gByLine[strings.TrimPrefix(f.file, repo+"/")+":"+strconv.Itoa(f.line)]
+			lvl := 1
+			if n == 0 {
+				lvl = 0
+			}
+			for _, s := range ss {
+				if !s.Init || s.Config {
+					sets[k][lvl] = append(sets[k][lvl], s)
+				}
+			}
+			if n++; n > 4 {
+				break
+			}
+		}
+	}
+	pick := func(a, b []gsite) (finding, bool) {
+		best, ok := finding{}, false
+		for _, x := range a {
+			for _, y := range b {
+				if x.key != y.key {
+					continue
+				}
+				f1, f2 := x.Fn, y.Fn
+				if f2 < f1 {
+					f1, f2 = f2, f1
+				}
+				c := finding{Global: x.key, F1: f1, F2: f2, Mapped: true, Pointee: x.Kind != "w" && y.Kind != "w"}
+				if !ok || c.Global < best.Global || (c.Global == best.Global && c.F1+"+"+c.F2 < best.F1+"+"+best.F2) {
+					best, ok = c, true
+				}
+			}
+		}
+		return best, ok
+	}
+	if lost[0] || lost[1] {
+		k := 0
+		if lost[0] {
+			k = 1
+		}
+		var best finding
+		ok := false
+		for _, s := range sets[k][0] {
+			if t.gUndisc[s.key] && (!ok || s.key < best.Global) {
+				best, ok = finding{Global: s.key, F1: "?", F2: s.Fn, Mapped: true, Pointee: true, OneSided: true}, true
+			}
+		}
+		return best, false, ok
+	}
+	for _, cb := range [][2]int{{0, 0}, {0, 1}, {1, 0}, {1, 1}} {
+		if f, ok := pick(sets[0][cb[0]], sets[1][cb[1]]); ok {
+			return f, cb[0] == 0 && cb[1] == 0, true
+		}
+	}
+	return finding{}, false, false
+}
+
+func classifyField(r report, t *table, repo, harnessDir string) finding {
 	var sets [2][3][]site
 	var where [2]string
 	var top [2]bool
@@ -604,6 +751,12 @@ func run(c *hk.Ctx) {
 		}
 	}
 
+	for _, g := range t.Globals {
+		c.Emit(map[string]any{"c": "races.global", "pkg": g.Pkg, "name": g.Name},
+			map[string]any{"known": true, "disciplined": g.Disciplined, "vkind": g.VKind}, !g.Disciplined || g.VKind == "container" || g.VKind == "opaque" || g.VKind == "safe",
+			"global:"+g.VKind+":"+map[bool]string{true: "disciplined", false: "undisciplined"}[g.Disciplined])
+	}
+
 	bin, err := buildRace(c, root)
 	if err != nil {
 		c.Violate(hk.Violation{Fingerprint: "races:harness-setup:race-build", What: err.Error()})
@@ -707,6 +860,18 @@ func run(c *hk.Ctx) {
 	var gorder []string
 	for _, fp := range order {
 		f := found[fp]
+		if f.Global != "" {
+			if f.OneSided {
+				c.Count(fp, true, nil, "report:package-level-variable")
+			} else {
+				g := t.globalOf[f.Global]
+				c.Emit(map[string]any{"c": "races.gpredict", "pkg": g.Pkg, "name": g.Name, "f1": f.F1, "f2": f.F2},
+					map[string]any{"predicted": true}, true, "report:package-level-variable")
+			}
+			groups[fp] = &group{scenarios: f.Scenarios, text: f.Text, pairs: []string{f.F1 + " + " + f.F2}, where: []string{f.Where[0] + " / " + f.Where[1]}}
+			gorder = append(gorder, fp)
+			continue
+		}
 		if f.External {
 			c.Count(fp, true, nil, "report:external-memory")
 		} else if f.OneSided {
@@ -767,6 +932,15 @@ func run(c *hk.Ctx) {
 			continue
 		}
 		f := found[gk]
+		if f.Global != "" {
+			g := t.globalOf[f.Global]
+			c.Violate(hk.Violation{Fingerprint: gk,
+				What: fmt.Sprintf("data race on the package-level variable %s (%s, holds: %s; table verdict: %s) — state shared by every client and server of the process — between %s and %s (%s; scenarios %v)",
+					f.Global, g.Type, g.VKind, g.Why, f.F1, f.F2, strings.Join(f.Where[:], " / "), f.Scenarios),
+				Input: map[string]any{"scenarios": f.Scenarios, "sites": f.Where, "variable": f.Global}, Observed: text,
+				Expected: "no unsynchronised conflicting accesses (Go memory model)"})
+			continue
+		}
 		what := fmt.Sprintf("data race on the object behind %s.%s (the field itself is disciplined), used by %s and %s", f.Type, f.Field, f.F1, f.F2)
 		if !f.Pointee {
 			what = fmt.Sprintf("data race on %s.%s between %s and %s — a field the lock table calls disciplined", f.Type, f.Field, f.F1, f.F2)
